@@ -18,6 +18,7 @@ EXPLANATION = (
     'exactly ExtendedMessage carrying sub-id 0xFF30; R5 start() subscribes the response listener on every (re)start and stop() removes it, start() creates '
     'both loops and is awaited on every path that reaches the CONNECTED state in both generations. Arrival-time arithmetic is not decided. R6 the reset the '
     'watchdog asks for really ends in a new connection attempt (C07.R2 + C07.R3 re-evaluated).'
+    ' Added later: R3 also demands that the monitoring loop waits (event, sleep, queue) only inside the armed asyncio.timeout - after a handled timeout the deadline is armed again at once.'
 )
 ASSUMPTIONS = ["asyncio.timeout(delay)/Timeout.reschedule(when) semantics as documented (delay None = no deadline)", "loop.time() is the clock asyncio.timeout uses"]
 FLOORS = {"C08.R1": 5, "C08.R2": 4, "C08.R3": 7, "C08.R4": 5, "C08.R5": 5, "C08.R6": 1, "C08.R7": 1, "C08.R8": 1}
